@@ -98,6 +98,10 @@ def reader_cfgs(quick=True):
             for rw in RW:
                 out.append('e=%s rw=%d rk=buf strict=%d' % (e, rw, strict))
             out.append('e=%s rw=64 rk=bit strict=%d' % (e, strict))
+        # the same readers over a byte stream (WordAdapter over a Cursor): always strict
+        for rw in RW:
+            out.append('e=%s rw=%d rk=buf strict=1 rb=adapter' % (e, rw))
+        out.append('e=%s rw=64 rk=bit strict=1 rb=adapter' % e)
     return out
 
 
@@ -182,15 +186,20 @@ def gen_C01(rng, tier):
                 nexts.append('wf')
                 for nx in nexts:
                     ops = pre + [nx, 'wd', 'wb x%x %d' % (rng.getrandbits(64), rng.randrange(0, 65)), rng.choice(['wf', 'wf', 'wdrop', 'winto']), 'wd', 'wf', 'wd']
-                    lines.append('S e=%s ww=%d :: %s' % (e, W, ' ; '.join(ops)))
+                    lines.append('S e=%s ww=%d%s :: %s' % (e, W, rng.choice(['', '', ' wb=adapter', ' wb=rec']), ' ; '.join(ops)))
     # random histories
     nh = 1500 if quick else 40000
     for _ in range(nh):
         e = rng.choice(ES)
         W = rng.choice(WW)
         cap = ''
-        if rng.random() < 0.2:
+        k = rng.random()
+        if k < 0.2:
             cap = ' cap=%d' % rng.randrange(0, 6)
+        elif k < 0.35:
+            cap = ' wb=adapter'      # BufBitWriter over WordAdapter over a byte Cursor
+        elif k < 0.5:
+            cap = ' wb=rec'          # a word sink that only records
         ops = []
         for _ in range(rng.randrange(1, 60)):
             k = rng.random()
@@ -766,7 +775,7 @@ def gen_C14(rng, tier):
     quick = tier == 'quick'
     lines = []
     n = 1500 if quick else 40000
-    rcfgs = reader_cfgs(quick)
+    rcfgs = [c for c in reader_cfgs(quick) if 'rb=adapter' not in c]      # wrappers are exercised over memory backends
     for i in range(n):
         cfg = rng.choice(rcfgs)
         wrap = 'count' if rng.random() < 0.8 else 'dbg'
@@ -904,6 +913,11 @@ def gen_C18(rng, tier):
             # the bit-stream traits write the same bytes at aligned positions
             E = rng.choice(ES)
             lines.append('S e=%s ww=%d :: wc vbbe - 0 %d ; wc vble - 0 %d ; wf ; wd' % (E, rng.choice(WW), v, v))
+            # ... and the bit-stream readers decode them (both variants, any reader)
+            rc = rng.choice(reader_cfgs(True))
+            off = rng.choice([0, 0, 8, 3])
+            lines.append('S %s ww=%d :: wb x0 %d ; wc vbbe - 0 %d ; wc vble - 0 %d ; wc vbbe - 0 %d ; wf ; reopen ; rs %d ; rc vbbe - 0 ; rc vble - 0 ; rc vbbe - 0 ; pos'
+                         % (rc, rng.choice(WW), off, v, v, v // 3, off))
     # completeness: every terminated string of length <= 3 (thorough; sampled in quick)
     def strings(L):
         import itertools
